@@ -1138,3 +1138,154 @@ Proof.
   intros W H e Hin. pose proof (writes_confined _ _ _ _ _ _ _ _ _ _ W H) as F.
   rewrite Forall_forall in F. exact (F e Hin).
 Qed.
+
+(* ------------------------------------------------------------------ equivalence, per reference *)
+
+(* The path string written into a localized kustomization (filepath.Rel result, printed), when a
+   later build joins it to the mirrored root, denotes exactly the location the localizer wrote to. *)
+Lemma rewritten_path_resolves dst lp :
+  forallb (fun c => negb (str_contains_char slash c)) lp = true ->
+  join_abs dst (show_rel lp) = join_comps dst lp.
+Proof.
+  intros H. unfold join_abs, join_comps, show_rel. destruct lp as [|x lp].
+  - reflexivity.
+  - unfold split_path. rewrite split_join; auto. discriminate.
+Qed.
+
+Lemma step_ro_inv fault e w w1 r :
+  step_world fault e w = (w1, r) -> read_only e = true ->
+  w_fs w1 = w_fs w /\ (r = RFail \/ r = snd (exec e (w_fs w))).
+Proof.
+  intros H R. unfold step_world in H.
+  destruct (fallible e && fault_hit fault (w_n w))%bool.
+  - inv H. auto.
+  - pose proof (exec_read_only e (w_fs w) R) as X.
+    destruct (exec e (w_fs w)) as [s' r'] eqn:E. inv H. cbn in *. auto.
+Qed.
+
+Lemma exec_read_file s p c :
+  snd (exec (EReadFile p) s) = RData c -> lookup (query_comps p) s = Some (EFile c).
+Proof.
+  cbn. destruct (fs_find s p) as [|q [|c']| |] eqn:F; cbn; intros H; inv H.
+  pose proof (fs_find_bound _ _ _ _ F). apply fs_find_node in F. destruct F as [-> _]. auto.
+Qed.
+
+Lemma run_crp ch fault root file w w' lp :
+  run ch fault (cleaned_relative_path root file) w = (w', OOk lp) ->
+  fs_wf (w_fs w) ->
+  w_fs w' = w_fs w /\ lp = rel_comps root (query_comps (abs_of root file)).
+Proof.
+  unfold cleaned_relative_path. rewrite run_op by discriminate.
+  destruct (step_world fault (ECleanedAbs (abs_of root file)) w) as [w1 r] eqn:S. intros H W.
+  destruct (step_ro_inv _ _ _ _ _ S eq_refl) as [Efs [->|Er]]; [cbn in H; inv H|].
+  destruct r; cbn in H; inv H. split; auto.
+  assert (X : exec (ECleanedAbs (abs_of root file)) (w_fs w) = (fst (exec (ECleanedAbs (abs_of root file)) (w_fs w)), RAbs d f)).
+  { rewrite Er. destruct (exec _ _); reflexivity. }
+  destruct (abs_lex_join _ _ _ (exec_cleaned_abs _ _ _ _ _ W X)) as [-> _]. reflexivity.
+Qed.
+
+(* Loader.Load, when it succeeds, has read the file bound at the cleaned path, strictly below the root *)
+Lemma run_ldr_load ch fault scope nd lc path w w' c :
+  run ch fault (ldr_load (mkArgs scope nd) lc path) w = (w', OOk c) ->
+  fs_wf (w_fs w) ->
+  w_fs w' = w_fs w /\ in_root (lc_root lc) path /\
+  lookup (query_comps (abs_of (lc_root lc) path)) (w_fs w) = Some (EFile c).
+Proof.
+  unfold ldr_load. rewrite run_bind. unfold guard_local.
+  destruct (remote_like path); [cbn [run]; intros H; inv H|].
+  change (run ch fault (Ret tt) w) with (w, OOk tt). cbv beta iota.
+  rewrite run_op by discriminate.
+  destruct (step_world fault (ECleanedAbs (abs_of (lc_root lc) path)) w) as [w1 r] eqn:S. intros H W.
+  destruct (step_ro_inv _ _ _ _ _ S eq_refl) as [Efs [->|Er]]; [cbn in H; inv H|].
+  destruct r; cbn [run] in H; try (inv H; fail).
+  assert (X : exec (ECleanedAbs (abs_of (lc_root lc) path)) (w_fs w)
+              = (fst (exec (ECleanedAbs (abs_of (lc_root lc) path)) (w_fs w)), RAbs d f)).
+  { rewrite Er. destruct (exec _ _); reflexivity. }
+  pose proof (exec_cleaned_abs _ _ _ _ _ W X) as L.
+  destruct (String.eqb f "") eqn:Ef; [cbn in H; inv H|].
+  destruct (has_prefix_c d (lc_root lc)) eqn:Hp; cbn [negb] in H; [|cbn in H; inv H].
+  rewrite run_op in H by discriminate.
+  destruct (step_world fault (EReadFile (show_abs (join_abs d f))) w1) as [w2 r2] eqn:S2.
+  destruct (step_ro_inv _ _ _ _ _ S2 eq_refl) as [Efs2 [->|Er2]]; [cbn in H; inv H|].
+  destruct r2; cbn [run] in H; try (inv H; fail).
+  rewrite run_bind in H.
+  destruct (run ch fault (cleaned_relative_path (lc_root lc) path) w2) as [w3 [cp|x]] eqn:R3; [|inv H].
+  destruct (run_crp _ _ _ _ _ _ _ R3) as [Efs3 _]; [rewrite Efs2, Efs; auto|].
+  match type of H with context [if ?b then _ else _] => destruct b end; cbn in H; inv H.
+  destruct (abs_lex_join _ _ _ L) as [J G].
+  assert (IR : in_root (lc_root lc) path).
+  { destruct L as [Gd [[-> _]|[Gf E]]]; [discriminate|].
+    unfold has_prefix_c in Hp. destruct (is_prefix_inv _ _ Hp) as [r1 ->].
+    exists (r1 ++ [f]). repeat split.
+    - destruct r1; discriminate.
+    - rewrite good_path_app in Gd. apply andb_prop in Gd. destruct Gd as [_ Gd].
+      rewrite good_path_app, Gd. cbn. rewrite Gf. reflexivity.
+    - rewrite <- E, app_assoc. reflexivity. }
+  repeat split; auto.
+  - rewrite Efs3, Efs2, Efs. reflexivity.
+  - symmetry in Er2. apply exec_read_file in Er2.
+    rewrite query_show in Er2 by (rewrite J; auto). rewrite J, Efs in Er2. exact Er2.
+Qed.
+
+Lemma step_mut_res fault e w w1 r :
+  (exists p, e = EMkdirAll p) \/ (exists p c, e = EWriteFile p c) ->
+  step_world fault e w = (w1, r) -> r = RUnit ->
+  exec e (w_fs w) = (w_fs w1, RUnit).
+Proof.
+  intros He H ->. unfold step_world in H.
+  destruct (fallible e && fault_hit fault (w_n w))%bool; [inv H|].
+  destruct (exec e (w_fs w)) as [s' r'] eqn:E. inv H. reflexivity.
+Qed.
+
+(* localizeFileWithContent, when it succeeds, returns a path that — joined to the mirrored root —
+   is bound to the given content (or to a directory that was in the way) *)
+Lemma run_lfwc ch fault lc path c w w' s :
+  in_root (lc_root lc) path -> good_path (lc_dst lc) = true ->
+  run ch fault (loc_file_with_content lc path c) w = (w', OOk s) ->
+  fs_wf (w_fs w) ->
+  lookup (join_abs (lc_dst lc) s) (w_fs w') = Some (EFile c) \/
+  lookup (join_abs (lc_dst lc) s) (w_fs w') = Some EDir.
+Proof.
+  intros (r' & Hne & G' & Q) Gd. unfold loc_file_with_content. rewrite run_bind.
+  destruct (run ch fault (cleaned_relative_path (lc_root lc) path) w) as [w1 [lp|x]] eqn:R1; [|intros H; inv H].
+  intros H W. destruct (run_crp _ _ _ _ _ _ _ R1 W) as [Efs ->].
+  rewrite Q, rel_comps_below in H.
+  rewrite join_comps_normal in H by (apply good_path_normal; auto).
+  rewrite run_bind in H. unfold op_unit in H at 1. rewrite run_op in H by discriminate.
+  destruct (step_world fault (EMkdirAll _) w1) as [w2 r2] eqn:S2.
+  destruct r2; cbn [run] in H; try (inv H; fail).
+  rewrite run_bind in H. unfold op_unit in H. rewrite run_op in H by discriminate.
+  destruct (step_world fault (EWriteFile _ c) w2) as [w3 r3] eqn:S3.
+  destruct r3; cbn [run] in H; try (inv H; fail). inv H.
+  pose proof (step_mut_res _ _ _ _ _ (or_intror (ex_intro _ _ (ex_intro _ c eq_refl))) S3 eq_refl) as X.
+  cbn [exec] in X.
+  assert (Gq : good_path (lc_dst lc ++ r') = true) by (rewrite good_path_app, Gd, G'; auto).
+  rewrite rewritten_path_resolves by (apply good_path_noslash; auto).
+  rewrite join_comps_normal by (apply good_path_normal; auto).
+  unfold fs_write in X. rewrite query_show in X by auto.
+  destruct (rev (lc_dst lc ++ r')) as [|name drev]; [discriminate|].
+  destruct (add_dirs (w_fs w2) [] (rev drev)) as [s1|]; [|discriminate].
+  destruct (negb (legal_name name)); [discriminate|].
+  destruct (lookup (lc_dst lc ++ r') s1) as [[|c']|] eqn:L; inv X.
+  - right. exact L.
+  - left. rewrite lookup_set, cpath_eqb_refl. reflexivity.
+  - left. rewrite lookup_set, cpath_eqb_refl. reflexivity.
+Qed.
+
+(* localizeFile on a non-empty reference: the bytes bound at the referenced (cleaned) source path
+   are, afterwards, bound at the REWRITTEN path resolved from the mirrored root. *)
+Theorem loc_file_copies ch fault scope nd lc path w w' s :
+  good_path (lc_dst lc) = true -> fs_wf (w_fs w) -> path <> "" ->
+  run ch fault (loc_file (mkArgs scope nd) lc path) w = (w', OOk s) ->
+  exists c,
+    lookup (query_comps (abs_of (lc_root lc) path)) (w_fs w) = Some (EFile c) /\
+    (lookup (join_abs (lc_dst lc) s) (w_fs w') = Some (EFile c) \/
+     lookup (join_abs (lc_dst lc) s) (w_fs w') = Some EDir).
+Proof.
+  intros Gd W Hp. unfold loc_file.
+  destruct (String.eqb path "") eqn:E; [apply String.eqb_eq in E; congruence|].
+  rewrite run_bind.
+  destruct (run ch fault (ldr_load (mkArgs scope nd) lc path) w) as [w1 [c|x]] eqn:R1; [|intros H; inv H].
+  intros H. destruct (run_ldr_load _ _ _ _ _ _ _ _ _ R1 W) as (Efs & IR & L).
+  exists c. split; auto. eapply run_lfwc; eauto. rewrite Efs; auto.
+Qed.
